@@ -98,6 +98,8 @@ type LemmaDecl struct {
 	Induct string
 	Where  string
 	Props  []string
+	Hints  []*Expr // instances of earlier lemmas to assume: name(args...)
+	Triggers [][]*Expr
 }
 
 type ConstDecl struct {
@@ -201,7 +203,7 @@ var topKeywords = map[string]bool{"sort": true, "fun": true, "def": true, "rec":
 	"lemma": true, "table": true, "func": true, "extern": true, "iface": true, "functype": true, "chantype": true}
 var clauseKeywords = map[string]bool{"requires": true, "ensures": true, "modifies": true, "loop": true, "invariant": true,
 	"decreases": true, "pure": true, "flag": true, "props": true, "safety": true, "induct": true, "inv": true,
-	"at": true, "assert": true, "iter_ensures": true, "ghostset": true, "rely": true, "onsend": true, "onrecv": true, "assume": true}
+	"at": true, "assert": true, "iter_ensures": true, "hint": true, "trigger": true, "ghostset": true, "rely": true, "onsend": true, "onrecv": true, "assume": true}
 
 type rawItem struct {
 	lines []string // logical lines, continuation merged
@@ -550,6 +552,28 @@ func (sp *Specs) ParseSpecText(path, text string, raw bool) error {
 			} else {
 				return fmt.Errorf("%s: decreases outside function", where)
 			}
+		case "hint":
+			if curLemma == nil {
+				return fmt.Errorf("%s: hint outside lemma", where)
+			}
+			he, err := ParseExpr(rest)
+			if err != nil || he.Op != "call" {
+				return fmt.Errorf("%s: hint must be lemmaName(args...)", where)
+			}
+			curLemma.Hints = append(curLemma.Hints, he)
+		case "trigger":
+			if curLemma == nil {
+				return fmt.Errorf("%s: trigger outside lemma", where)
+			}
+			var group []*Expr
+			for _, part := range splitTop(rest, ',') {
+				te, err := ParseExpr(strings.TrimSpace(part))
+				if err != nil {
+					return fmt.Errorf("%s: %v", where, err)
+				}
+				group = append(group, te)
+			}
+			curLemma.Triggers = append(curLemma.Triggers, group)
 		case "induct":
 			if curLemma == nil {
 				return fmt.Errorf("%s: induct outside lemma", where)
